@@ -136,6 +136,53 @@ def getter_out_fields(E, fn, blocks, depth=0):
     return out
 
 
+def _va_args_in(fn, x):
+    """va_arg nodes under the arguments of the call x (nested calls are sequence points of their own, not entered)"""
+    from upv.facts import children
+    out, st = [], list(x.get('args', []))
+    while st:
+        n = st.pop()
+        if not isinstance(n, dict):
+            continue
+        if n.get('k') == 'va_arg':
+            out.append(n)
+            continue
+        if n.get('k') == 'call':
+            continue
+        st.extend(children(n))
+    return out
+
+
+def check_va_seq(rep, prog):
+    """the arguments of a command are read from the list in the order they were pushed"""
+    rep.rule('R-va-seq', 'no call has two va_arg() reads among its own arguments: the order in which the arguments of a call are evaluated is unspecified, so which '
+             'pointer receives which value (or which value lands in which parameter of the setter) is up to the compiler - on x86-64 gcc evaluates right to '
+             'left and the two are swapped. Contradiction rule over every function of every unit parsed (expected count 0; the matcher is exercised on a '
+             'synthetic call on every run)')
+    probe = {'k': 'call', 'fn': 'f', 'args': [{'k': 'va_arg', 'e': {}}, {'k': 'cast', 'e': {'k': 'va_arg', 'e': {}}}]}
+    if len(_va_args_in(None, probe)) != 2:
+        raise facts.AnalysisBroken('R-va-seq: the matcher no longer recognises its positive example')
+    ncalls = 0
+    units = list(prog.units.values()) + ([prog.hdr] if prog.hdr else [])
+    for u in units:
+        for fn in sorted(u.funcs.values(), key=lambda f: f.name):
+            if not fn.blocks or not any('va_list' in p_['t'] for p_ in fn.params):
+                continue
+            for _, _, x in fn.nodes():
+                if x.get('k') != 'call':
+                    continue
+                vas = _va_args_in(fn, x)
+                if vas:
+                    ncalls += 1
+                if len(vas) >= 2:
+                    rep.add('R-va-seq', '%s:%s' % (fn.name, x.get('fn')), VIOLATED, '%s:%s' % (fn.file, x.get('l')),
+                            what='%s reads %d arguments with va_arg() inside the argument list of one call to %s (line %s): their order of evaluation is '
+                                 'unspecified, the values reach the wrong parameters with a compiler that evaluates right to left' % (
+                                     fn.name, len(vas), x.get('fn'), x.get('l')))
+    rep.add('R-va-seq', 'all-units', HOLDS, '', calls_with_one_va_arg=ncalls)
+    return ncalls
+
+
 def run(tier='quick', repo=None):
     repo = repo or facts.REPO
     rep = Report(PROP, tier)
@@ -162,6 +209,7 @@ def run(tier='quick', repo=None):
     for a, fnname in ANCHORS.items():
         if a not in prog.units or fnname not in prog.units[a].funcs:
             raise facts.AnalysisBroken('anchor vanished: %s:%s' % (a, fnname))
+    check_va_seq(rep, prog)
     E = effects.Effects(prog)
     pairs_seen = []
     for uname, u in sorted(prog.units.items()):
